@@ -72,6 +72,9 @@ fn run(routine: &str, rest: &[String]) -> String {
         "multi_order" => bar::multi_order(rest),
         "multi_logs" => bar::multi_logs(rest),
         "pos_history" => public::pos_history(rest),
+        "byte_formatters" => public::byte_formatters(rest),
+        "time_keys" => public::time_keys(rest),
+        "multi_move" => public::multi_move(rest),
         "multi_bottom" => bar::multi_bottom(rest),
         "bar_reuse" => bar::bar_reuse(rest),
         "multi_rate" => bar::multi_rate(rest),
